@@ -1,4 +1,7 @@
-"""C07: every command of every version -- real ProtocolHandler._ezsp_frame / __call__ vs the Coq codec."""
+"""C07: every command of every version -- the request as it reaches gateway.send_data() when called through the
+public path (ProtocolHandler.command), and real __call__, vs the Coq codec."""
+import asyncio
+
 import ezsptypes as et
 from framework import PropertyCheck
 
@@ -88,17 +91,48 @@ class Check(PropertyCheck):
             case["_txflat"] = et.flat_schema_values(tx, txv)
             case["_rxflat"] = et.flat_schema_values(rx, rxv)
             proto._seq = case["seq"]
+            sent = []
+
+            class Gw:
+                async def send_data(self, data):
+                    sent.append(bytes(data))
+
+            proto._gw = Gw()
+
+            def public_call(args, kwargs):
+                """the request as it reaches gateway.send_data() when the command is called through the public
+                path (handler.<name>(...) == ProtocolHandler.command); the pending call is then abandoned"""
+                del sent[:]
+                proto._seq = case["seq"]
+                task = self.loop.create_task(getattr(proto, name)(*args, **kwargs))
+                for _ in range(6):
+                    self.loop.run_until_complete(asyncio.sleep(0))
+                    if sent or task.done():
+                        break
+                if task.done() and task.exception() is not None:
+                    raise task.exception()
+                task.cancel()
+                self.loop.run_until_complete(asyncio.sleep(0))
+                proto._awaiting.pop(case["seq"], None)
+                if len(sent) != 1:
+                    raise AssertionError(f"{len(sent)} frames handed to the gateway")
+                return sent[0]
+
             if isinstance(tx, dict):
-                b_pos = proto._ezsp_frame(name, *txv)
+                b_pos = public_call(txv, {})
                 keys = list(tx.keys())
                 k = rng.randrange(0, len(keys) + 1)
                 kw = dict(list(zip(keys, txv))[k:])
                 kw = dict(sorted(kw.items(), key=lambda _: rng.random()))
-                b_kw = proto._ezsp_frame(name, *txv[:k], **kw)
+                b_kw = public_call(txv[:k], kw)
+                b_allkw = public_call([], dict(zip(keys, txv)))
+                if b_allkw != b_kw:
+                    b_kw = b_allkw if b_allkw != b_pos else b_kw
                 parts = b"".join(ty(x).serialize() for ty, x in zip(tx.values(), txv))
             else:
-                b_pos = b_kw = proto._ezsp_frame(name, **txv.as_dict())
+                b_pos = b_kw = public_call([], txv.as_dict())
                 parts = txv.serialize()
+            proto._seq = case["seq"]
             out["tx"] = bytes(b_pos).hex()
             out["tx_kw_same"] = bytes(b_pos) == bytes(b_kw)
             out["tx_parts_ok"] = bytes(b_pos)[len(header_ref(v, case["seq"], cid)):] == parts
